@@ -17,12 +17,15 @@ EXTENDS Scheduler, Json, IOUtils
 
 TraceLog == ndJsonDeserialize(IOEnv.TRACE_FILE)
 
-VARIABLES l, bad, pending, mark, implLog, implClock, implRet
-tvars == <<vars, l, bad, pending, mark, implLog, implClock, implRet>>
+VARIABLES l, bad, pending, mark, implLog, implClock, implRet,
+          c0      \* the clock the driver was constructed with (AsyncDriver::with_clock); everything is invariant under this shift
+tvars == <<vars, l, bad, pending, mark, implLog, implClock, implRet, c0>>
 
 Entry(x) == [t |-> x[1], pc |-> x[2], cycle |-> x[3], want |-> x[4]]
 Entries(s) == [i \in 1..Len(s) |-> Entry(s[i])]
 NoWant(s) == [i \in 1..Len(s) |-> [t |-> s[i].t, pc |-> s[i].pc, cycle |-> s[i].cycle]]
+Shifted(s, c) == [i \in 1..Len(s) |-> [s[i] EXCEPT !.cycle = @ + c]]
+Clock0(e) == IF "clock0" \in DOMAIN e THEN e.clock0 ELSE 0
 
 \* reference order of accepted events, derived from the reference log
 RefAccepted(sc) ==
@@ -33,7 +36,7 @@ RefAccepted(sc) ==
 TInit ==
   /\ scripts = <<>> /\ clock = 0 /\ queue = << >> /\ events = <<>> /\ pcOf = << >> /\ want = << >>
   /\ phase = "idle" /\ drain = <<>> /\ start = 0 /\ target = 0 /\ log = <<>> /\ results = <<>> /\ accepted = <<>> /\ acts = <<>>
-  /\ l = 1 /\ bad = {} /\ pending = FALSE /\ mark = 0 /\ implLog = <<>> /\ implClock = 0 /\ implRet = <<>>
+  /\ l = 1 /\ bad = {} /\ pending = FALSE /\ mark = 0 /\ implLog = <<>> /\ implClock = 0 /\ implRet = <<>> /\ c0 = 0
 
 Flag(e, clause, detail) == bad' = bad \cup {[tid |-> e.tid, line |-> l, clause |-> clause, detail |-> detail]}
 
@@ -45,7 +48,7 @@ Clause(e) ==
      ELSE IF e.clock < implClock THEN "TimeMonotone"
      ELSE IF \E i \in 1..Len(nl) : nl[i].cycle < implClock \/ nl[i].cycle > e.clock THEN "TimeMonotone"
      ELSE IF e.ret.cycles # e.clock - implClock THEN "Accounting"
-     ELSE IF ~IsPrefixOf(NoWant(il), NoWant(RefLog(scripts))) THEN "PartitionIndependent"
+     ELSE IF ~IsPrefixOf(NoWant(il), Shifted(NoWant(RefLog(scripts)), c0)) THEN "PartitionIndependent"
      ELSE IF ~IsPrefixOf(ret, RefAccepted(scripts)) THEN "EventsOnceInOrder"
      ELSE IF \/ results[Len(results)] # [ev |-> e.ret.ev, cycles |-> e.ret.cycles]
              \/ clock # e.clock
@@ -55,18 +58,18 @@ Clause(e) ==
 TNext ==
   \/ /\ phase = "idle" /\ ~pending /\ l <= Len(TraceLog) /\ TraceLog[l].ev = "Init"
      /\ LET e == TraceLog[l] IN
-        /\ scripts' = e.scripts /\ clock' = 0
-        /\ queue' = (IF Len(e.scripts) = 0 THEN << >> ELSE (0 :> [i \in 1..Len(e.scripts) |-> i]))
-        /\ events' = <<>> /\ pcOf' = [t \in 1..Len(e.scripts) |-> 1] /\ want' = [t \in 1..Len(e.scripts) |-> 0]
+        /\ scripts' = e.scripts /\ clock' = Clock0(e) /\ c0' = Clock0(e)
+        /\ queue' = (IF Len(e.scripts) = 0 THEN << >> ELSE (Clock0(e) :> [i \in 1..Len(e.scripts) |-> i]))
+        /\ events' = <<>> /\ pcOf' = [t \in 1..Len(e.scripts) |-> 1] /\ want' = [t \in 1..Len(e.scripts) |-> Clock0(e)]
         /\ phase' = "idle" /\ drain' = <<>> /\ start' = 0 /\ target' = 0 /\ log' = <<>> /\ results' = <<>> /\ accepted' = <<>>
         /\ acts' = acts /\ l' = l + 1 /\ bad' = bad /\ pending' = FALSE /\ mark' = 0
-        /\ implLog' = <<>> /\ implClock' = 0 /\ implRet' = <<>>
+        /\ implLog' = <<>> /\ implClock' = Clock0(e) /\ implRet' = <<>>
   \/ /\ phase = "idle" /\ ~pending /\ l <= Len(TraceLog) /\ TraceLog[l].ev = "RunFor"
      /\ RunForBegin(TraceLog[l].b)
      /\ pending' = TRUE /\ mark' = Len(log)
-     /\ UNCHANGED <<l, bad, implLog, implClock, implRet>>
+     /\ UNCHANGED <<l, bad, implLog, implClock, implRet, c0>>
   \/ /\ phase # "idle" /\ Internal
-     /\ UNCHANGED <<l, bad, pending, mark, implLog, implClock, implRet>>
+     /\ UNCHANGED <<l, bad, pending, mark, implLog, implClock, implRet, c0>>
   \/ /\ phase = "idle" /\ pending
      /\ LET e == TraceLog[l]
             c == Clause(e)
@@ -75,7 +78,7 @@ TNext ==
            /\ implClock' = e.clock
            /\ implRet' = (IF e.ret.ev # 0 THEN Append(implRet, e.ret.ev) ELSE implRet)
      /\ l' = l + 1 /\ pending' = FALSE
-     /\ UNCHANGED <<vars, mark>>
+     /\ UNCHANGED <<vars, mark, c0>>
 
 TSpec == TInit /\ [][TNext]_tvars
 
